@@ -14,7 +14,7 @@ LEVEL = 'model_checking'
 RULE = ('(a) every history of depth <= D over the event menu {start (and take the first answer of) an enumeration of '
         'p(X) / retract(p(X)) / retract(p(a)) in a free slot (<= 2 suspended at once); step slot 1|2; close slot 1|2; '
         'asserta(p(c)); assertz(p(c)); retract(p(b)) once; retractall(p(a))} from the initial stores [] [a] [a,b] '
-        '[a,b,a] (and, over a 9-event alphabet with the partially bound patterns retract(p(f(X))) / retractall(p(f(_))), from the store [f(a),b,f(b),f(a)]), replayed on a fresh engine through the Python API with the reference model (logical update view: '
+        '[a,b,a] (and, over a 10-event alphabet with the partially bound patterns retract(p(f(X))) / retractall(p(f(_))) and clear(), from the store [f(a),b,f(b),f(a)]), replayed on a fresh engine through the Python API with the reference model (logical update view: '
         'snapshot of fact identities when the goal starts; a retract skips facts that are gone) stepped alongside; after '
         'EVERY event the answer / exhaustion of the enumeration and the store read back must equal the model\'s. '
         '(b) every clause body of <= G goals over {p(X) p(Y) assertz(p(c)) asserta(p(c)) retract(p(X)) retract(p(Y)) '
@@ -34,7 +34,7 @@ STARTS = {'q': F('p', X), 'rX': F('retract', F('p', X)), 'ra': F('retract', F('p
 EVENTS = ['start:q', 'start:rX', 'start:ra', 'step:1', 'step:2', 'close:1', 'close:2',
           'asserta', 'assertz', 'retract_b', 'retractall_a']
 # a second alphabet for the store with structured facts: partially bound retract patterns
-STRUCT_EVENTS = ['start:q', 'start:rf', 'start:rX', 'step:1', 'step:2', 'close:1', 'assertz', 'retractall_f', 'retract_b']
+STRUCT_EVENTS = ['start:q', 'start:rf', 'start:rX', 'step:1', 'step:2', 'close:1', 'assertz', 'retractall_f', 'retract_b', 'clear']
 
 
 def bounds(tier):
@@ -91,6 +91,9 @@ class Run:
             return ('closed', k)
         if any(self.slots.values()):
             self.overlap = True
+        if ev == 'clear':
+            w.clear()
+            return ('cleared',)
         if ev == 'asserta':
             goal = F('asserta', F('p', c))
         elif ev == 'assertz':
